@@ -13,7 +13,7 @@ use syn::*;
 #[derive(Clone, Debug)]
 pub enum RaiiKind {
     Lock { place: Expr, field: String },
-    Permit { sem: Expr, field: String },
+    Permit { sem: Expr, field: String, wrapped: bool },
     Guard { body: Block },
     Backref { pool: Expr },
     Fut,
@@ -62,6 +62,7 @@ pub struct Elab<'a> {
     pub impl_ty: Option<String>,
     pub pool: Option<Expr>,
     pub ctl: bool,
+    pub ret_option: bool, // the function returns `Option<_>`: `?` is on options
     pub env: Env,
     pub counters: BTreeMap<String, usize>,
     pub loop_ctr: usize,
@@ -74,8 +75,9 @@ pub struct Elab<'a> {
     pub used_keys: BTreeSet<String>,
     pub notes: Vec<String>,
     pub errors: Vec<String>,
-    pub pending_locks: Vec<(Expr, String)>,
+    pub pending_locks: Vec<(Expr, String, bool)>, // (place, field, panics when poisoned)
     pub pending_raii: Vec<Raii>,
+    pub block_moved: Option<Raii>, // the RAII local the block folded last moved out through its tail expression
     pub brk_stack: Vec<Option<Ident>>,
     pub self_rename: Option<Ident>,
     pub backparam: Option<(String, String)>, // (field, param) for this fn's impl type
@@ -166,6 +168,96 @@ fn find_acquire(e: &Expr) -> Option<(Expr, String)> {
     let mut v = V(None);
     syn::visit::Visit::visit_expr(&mut v, e);
     v.0
+}
+
+/// is the value of `e` visibly still the `Result` of an acquire (no `?` / `unwrap` / `match` took the permit out)? Then a
+/// local initialised with it holds `Result<SemaphorePermit, _>` rather than the permit. Anything not recognised counts as
+/// "the permit itself" (the form the pinned code uses).
+fn acquire_unwrapped(e: &Expr) -> bool {
+    fn block_wrapped(b: &Block) -> bool {
+        match b.stmts.last() {
+            Some(Stmt::Expr(e, None)) => wrapped(e),
+            _ => false,
+        }
+    }
+    fn wrapped(e: &Expr) -> bool {
+        match e {
+            Expr::Paren(p) => wrapped(&p.expr),
+            Expr::Block(b) => block_wrapped(&b.block),
+            Expr::If(i) => block_wrapped(&i.then_branch) || i.else_branch.as_ref().map(|(_, e)| wrapped(e)).unwrap_or(false),
+            Expr::Match(m) => m.arms.iter().any(|a| wrapped(&a.body)),
+            Expr::Await(_) => true,
+            Expr::MethodCall(m) => {
+                let n = m.method.to_string();
+                ACQUIRE_METHODS.contains(&n.as_str()) || n == "map_err" || n == "map" || n == "or_else" || n == "and_then"
+            }
+            _ => false,
+        }
+    }
+    !wrapped(e)
+}
+
+/// `P.lock().unwrap_or_else(PoisonError::into_inner)` / `P.lock().unwrap_or_else(|e| e.into_inner())`: the guard is taken
+/// whether or not the mutex is poisoned
+fn is_lock_anyway(e: &Expr) -> Option<&Expr> {
+    if let Expr::MethodCall(m) = peel_paren(e) {
+        if m.method == "unwrap_or_else" && m.args.len() == 1 {
+            let ok = match peel_paren(&m.args[0]) {
+                Expr::Path(p) => {
+                    let segs: Vec<String> = p.path.segments.iter().map(|s| s.ident.to_string()).collect();
+                    segs.len() >= 2 && segs[segs.len() - 2] == "PoisonError" && segs[segs.len() - 1] == "into_inner"
+                }
+                Expr::Closure(cl) if cl.inputs.len() == 1 => {
+                    let pn = match &cl.inputs[0] { Pat::Ident(pi) => Some(pi.ident.to_string()), _ => None };
+                    match (pn, peel_paren(&cl.body)) {
+                        (Some(pn), Expr::MethodCall(t)) => t.method == "into_inner" && t.args.is_empty() && path_single_ident(&t.receiver).as_deref() == Some(pn.as_str()),
+                        _ => false,
+                    }
+                }
+                _ => false,
+            };
+            if ok {
+                if let Expr::MethodCall(l) = peel_paren(&m.receiver) {
+                    if l.method == "lock" && l.args.is_empty() {
+                        return Some(&l.receiver);
+                    }
+                }
+            }
+        }
+    }
+    None
+}
+
+/// the expression that yields the value of `e`: through parentheses, block tails and the `let v: T = X; v` tail an inlined
+/// helper leaves
+fn value_expr(e: &Expr) -> &Expr {
+    match e {
+        Expr::Paren(p) => value_expr(&p.expr),
+        Expr::Block(b) if b.label.is_none() => {
+            let st = &b.block.stmts;
+            match st.last() {
+                Some(Stmt::Expr(t, None)) => {
+                    if let (Some(v), true) = (path_single_ident(t), st.len() >= 2) {
+                        if let Stmt::Local(l) = &st[st.len() - 2] {
+                            let bound = match &l.pat {
+                                Pat::Type(pt) => match &*pt.pat { Pat::Ident(pi) => Some(pi.ident.to_string()), _ => None },
+                                Pat::Ident(pi) => Some(pi.ident.to_string()),
+                                _ => None,
+                            };
+                            if bound.as_deref() == Some(v.as_str()) {
+                                if let Some(init) = &l.init {
+                                    return value_expr(&init.expr);
+                                }
+                            }
+                        }
+                    }
+                    value_expr(t)
+                }
+                _ => e,
+            }
+        }
+        _ => e,
+    }
 }
 
 fn is_lock_unwrap(e: &Expr) -> Option<&Expr> {
@@ -320,13 +412,20 @@ impl<'a> Elab<'a> {
                 v.extend(self.ghost_marker("after", &key));
                 v
             }
-            RaiiKind::Permit { sem, field } => {
+            RaiiKind::Permit { sem, field, wrapped } => {
                 let key = self.next_key(&format!("{}.permit_drop", field));
                 let mut v = vec![];
                 v.extend(self.pt());
                 v.extend(self.ghost_marker("before", &key));
                 v.push(parse_quote!(#sem.release_(#name);));
                 v.extend(self.ghost_marker("after", &key));
+                if *wrapped {
+                    // the local holds `Result<SemaphorePermit, _>`: only an `Ok` has a permit to give back
+                    let name2 = name.clone();
+                    let mut w: Vec<Stmt> = vec![];
+                    w.push(parse_quote!(match #name2 { Ok(#name) => { #(#v)* } Err(_) => {} }));
+                    return w;
+                }
                 v
             }
             RaiiKind::Guard { body } => {
@@ -424,6 +523,11 @@ impl<'a> Elab<'a> {
                 Stmt::Expr(e, None) if is_last => {
                     // tail expression: value of the block
                     let e2 = self.fold_temp_scope(e);
+                    // a bare RAII local as the value of its block is moved out, not dropped
+                    self.block_moved = match path_single_ident(&e2) {
+                        Some(n) => self.consume(&n),
+                        None => None,
+                    };
                     let scoped: Vec<Raii> =
                         self.env.raii.iter().filter(|r| r.depth >= depth).rev().cloned().collect();
                     let exit_ghost = depth == 1 && self.spec.before.contains_key("exit");
@@ -491,12 +595,21 @@ impl<'a> Elab<'a> {
         if locks.len() > 1 {
             self.unsupported("two lock temporaries in one statement", e2.span());
         }
-        let (place, field) = locks[0].clone();
+        let (place, field, checks) = locks[0].clone();
         let kl = self.next_key(&format!("{}.lock", field));
         let mut stmts = vec![];
         stmts.extend(self.pt());
         let ku = self.next_key(&format!("{}.unlock", field));
         stmts.extend(self.ghost_marker("before", &kl));
+        if self.u.poisonlocks && checks {
+            // `.lock().unwrap()` panics on a poisoned mutex
+            if self.ctl {
+                let drops = self.unwind_drops();
+                stmts.push(parse_quote!(if #place.is_poisoned() { #(#drops)* return Ctl::Unwind; }));
+            } else {
+                stmts.push(parse_quote!(if #place.is_poisoned() { vx_panic_(); }));
+            }
+        }
         stmts.push(parse_quote!(#place.lock_();));
         stmts.extend(self.lockinv_marker("acq", &field));
         stmts.extend(self.ghost_marker("after", &kl));
@@ -675,6 +788,25 @@ impl<'a> Elab<'a> {
                     }
                 }
             }
+            if self.u.poisonlocks {
+                if let Some(p) = is_lock_anyway(&init_expr) {
+                    let mfield = last_field(p).filter(|f| self.t.mutex_fields.contains(f)).or_else(|| path_single_ident(p).filter(|n| self.u.mutexlocals.contains(n)));
+                    if let Some(field) = mfield {
+                        let place = self.fold_expr(p.clone());
+                        let kl = self.next_key(&format!("{}.lock", field));
+                        let mut stmts = vec![];
+                        stmts.extend(self.pt());
+                        stmts.extend(self.ghost_marker("before", &kl));
+                        stmts.push(parse_quote!(#place.lock_();));
+                        stmts.extend(self.ghost_marker("after", &kl));
+                        let data: Expr = parse_quote!(#place.data);
+                        self.bind_alias(n, data);
+                        let depth = self.env.depth;
+                        self.env.raii.push(Raii { name: n.clone(), kind: RaiiKind::Lock { place, field }, depth });
+                        return stmts;
+                    }
+                }
+            }
             // R1: guard binding
             if let Some(p) = is_lock_unwrap(&init_expr) {
                 let mfield = last_field(p).filter(|f| self.t.mutex_fields.contains(f)).or_else(|| path_single_ident(p).filter(|n| self.u.mutexlocals.contains(n)));
@@ -712,10 +844,28 @@ impl<'a> Elab<'a> {
             }
         }
 
-        // RAII recognition by initialiser
+        // `let NEW = OLD;` with OLD a tracked RAII local: the value moves, the obligation to drop it moves with it
+        if let (Some(n), Some(old)) = (&name, path_single_ident(peel_paren(&init_expr))) {
+            if let Some(i) = self.find_raii(&old) {
+                if !matches!(self.env.raii[i].kind, RaiiKind::Lock { .. }) && *n != old {
+                    let mut r = self.env.raii.remove(i);
+                    r.name = n.clone();
+                    r.depth = self.env.depth;
+                    let e2 = self.fold_expr(init_expr.clone());
+                    self.unbind(n);
+                    let pat = self.fold_pat(l.pat.clone());
+                    l.pat = pat;
+                    l.init = Some(LocalInit { eq_token: init.eq_token, expr: Box::new(e2), diverge: None });
+                    self.env.raii.push(r);
+                    return vec![Stmt::Local(l)];
+                }
+            }
+        }
+
+        // RAII recognition by initialiser (through the blocks an inlined helper leaves: `{ ..; VALUE }`)
         let mut new_raii: Option<RaiiKind> = None;
         if let Some(_n) = &name {
-            match peel_paren(&init_expr) {
+            match value_expr(&init_expr) {
                 Expr::Struct(s) => {
                     let ty = s.path.segments.last().unwrap().ident.to_string();
                     if let Some(br) = self.u.backrefs.iter().find(|b| b.ty == ty) {
@@ -729,6 +879,9 @@ impl<'a> Elab<'a> {
                                             other => other.clone(),
                                         };
                                         let pe = self.fold_expr(pe);
+                                        if pe.to_token_stream().to_string().contains("__h") {
+                                            self.unsupported("a guard whose pool reference is a local of an inlined helper", l.span());
+                                        }
                                         new_raii = Some(RaiiKind::Backref { pool: pe });
                                     }
                                 }
@@ -755,24 +908,49 @@ impl<'a> Elab<'a> {
                 if let Some((sem, field)) = find_acquire(&init_expr) {
                     if self.t.prim_fields.contains(&field) {
                         let sem2 = self.fold_expr_quiet(sem);
-                        new_raii = Some(RaiiKind::Permit { sem: sem2, field });
+                        new_raii = Some(RaiiKind::Permit { sem: sem2, field, wrapped: !acquire_unwrapped(&init_expr) });
                     }
                 }
             }
         }
 
         let is_guard = matches!(new_raii, Some(RaiiKind::Guard { .. }));
+        self.block_moved = None;
         let e2 = if is_guard {
             parse_quote!(DropGuard::new_())
         } else {
-            self.fold_temp_scope(init_expr)
+            self.fold_temp_scope(init_expr.clone())
         };
+        // `let x = { ..; guard }`: the block handed a tracked value out, `x` holds it now
+        if new_raii.is_none() && matches!(peel_paren(&init_expr), Expr::Block(_)) {
+            if let Some(r) = self.block_moved.take() {
+                if !matches!(r.kind, RaiiKind::Lock { .. }) {
+                    new_raii = Some(r.kind);
+                }
+            }
+        }
+        self.block_moved = None;
         let mut names = vec![];
         Self::pat_idents(&l.pat, &mut names);
         for n in names.iter() {
             self.unbind(n);
         }
-        let pat = self.fold_pat(l.pat.clone());
+        let mut pat = self.fold_pat(l.pat.clone());
+        // `let v = Vec::new()` / `VecDeque::with_capacity(n)`: say the container type, so that specifications can talk about `v@`
+        // before the first `push` fixes the element type
+        if let Pat::Ident(_) = &pat {
+            if let Expr::Call(c) = peel_paren(&init_expr) {
+                if let Expr::Path(p) = &*c.func {
+                    let segs: Vec<String> = p.path.segments.iter().map(|s| s.ident.to_string()).collect();
+                    if segs.len() == 2 && (segs[0] == "Vec" || segs[0] == "VecDeque") && (segs[1] == "new" || segs[1] == "with_capacity") && p.path.segments.iter().all(|s| s.arguments.is_empty()) {
+                        let tyid = ident(&segs[0]);
+                        let inner = pat.clone();
+                        let ty: Type = parse_quote!(#tyid<_>);
+                        pat = Pat::Type(PatType { attrs: vec![], pat: Box::new(inner), colon_token: Default::default(), ty: Box::new(ty) });
+                    }
+                }
+            }
+        }
         l.pat = pat;
         l.init = Some(LocalInit { eq_token: init.eq_token, expr: Box::new(e2), diverge: None });
         if let (Some(n), Some(kind)) = (name, new_raii) {
@@ -929,6 +1107,13 @@ impl<'a> Elab<'a> {
             return Expr::Try(ExprTry { attrs: vec![], expr: Box::new(inner), question_token: t.question_token });
         }
         let drops = self.all_drops();
+        if self.ret_option {
+            let ret = self.wrap_ret(Some(parse_quote!(None)));
+            return parse_quote!(match #inner {
+                Some(__v) => __v,
+                None => { #(#drops)* return #ret; }
+            });
+        }
         let conv: Expr = if self.spec.attrs.iter().any(|a| a == "tryinto") { parse_quote!(Err(vx_into(__e))) } else { parse_quote!(Err(__e)) };
         let ret = self.wrap_ret(Some(conv));
         parse_quote!(match #inner {
@@ -1005,12 +1190,32 @@ impl<'a> Elab<'a> {
         let sp = m.span();
         let method = m.method.to_string();
 
+        // `X.drain(..).for_each(drop)` destroys every element in order and leaves X empty: that is `X.clear()`
+        if method == "for_each" && m.args.len() == 1 {
+            let is_drop = matches!(&m.args[0], Expr::Path(p) if { let n = path_to_string(&p.path); n == "drop" || n == "mem::drop" || n == "std::mem::drop" });
+            if is_drop {
+                if let Expr::MethodCall(d) = peel_paren(&m.receiver) {
+                    if d.method == "drain" && d.args.len() == 1 && matches!(&d.args[0], Expr::Range(r) if r.start.is_none() && r.end.is_none()) {
+                        let recv = (*d.receiver).clone();
+                        let clear: ExprMethodCall = parse_quote!(#recv.clear());
+                        return self.do_method(clear);
+                    }
+                }
+            }
+        }
+
         // R1: lock temporaries
-        if let Some(p) = is_lock_unwrap(&Expr::MethodCall(m.clone())) {
-            if let Some(field) = last_field(p) {
-                if self.t.mutex_fields.contains(&field) {
+        {
+            let me = Expr::MethodCall(m.clone());
+            let hit = match is_lock_unwrap(&me) {
+                Some(p) => Some((p.clone(), true)),
+                None => if self.u.poisonlocks { is_lock_anyway(&me).map(|p| (p.clone(), false)) } else { None },
+            };
+            if let Some((p, checks)) = hit {
+                let mfield = last_field(&p).filter(|f| self.t.mutex_fields.contains(f)).or_else(|| path_single_ident(&p).filter(|n| self.u.mutexlocals.contains(n)));
+                if let Some(field) = mfield {
                     let place = self.fold_expr(p.clone());
-                    self.pending_locks.push((place.clone(), field));
+                    self.pending_locks.push((place.clone(), field, checks));
                     return parse_quote!(#place.data);
                 }
             }
@@ -1396,6 +1601,52 @@ impl<'a> Elab<'a> {
                     return self.fold_expr(c.args[0].clone());
                 }
             }
+            // catch_unwind(AssertUnwindSafe(|| f(args))) / catch_unwind(|| f(args)) around ONE call of a closure that may panic:
+            // the unwind exit of that call becomes the `Err(payload)` value
+            if last == "catch_unwind" && c.args.len() == 1 {
+                let mut inner = peel_paren(&c.args[0]).clone();
+                if let Expr::Call(w) = &inner {
+                    if let Expr::Path(wp) = &*w.func {
+                        if wp.path.segments.last().unwrap().ident == "AssertUnwindSafe" && w.args.len() == 1 {
+                            inner = peel_paren(&w.args[0]).clone();
+                        }
+                    }
+                }
+                if let Expr::Closure(cl) = &inner {
+                    if cl.inputs.is_empty() {
+                        let mut body = peel_paren(&cl.body).clone();
+                        if let Expr::Block(b) = &body {
+                            if b.block.stmts.len() == 1 {
+                                if let Stmt::Expr(e, None) = &b.block.stmts[0] {
+                                    body = peel_paren(e).clone();
+                                }
+                            }
+                        }
+                        if let Expr::Call(bc) = &body {
+                            if let Expr::Path(bp) = &*bc.func {
+                                if bp.path.segments.len() == 1 {
+                                    let callee = bp.path.segments[0].ident.to_string();
+                                    if self.u.localcall.contains(&callee) && self.spec.panics.contains(&callee) {
+                                        let f = self.fold_expr((*bc.func).clone());
+                                        let mut args: Vec<Expr> = bc.args.iter().cloned().map(|a| self.fold_expr(a)).collect();
+                                        if self.u.blockingctx {
+                                            let b = self.spec.blocking;
+                                            args.push(parse_quote!(#b));
+                                        }
+                                        let call: Expr = parse_quote!(#f.call_(#(#args),*));
+                                        let call = self.wrap_op(call, &format!("{}.call", callee), false);
+                                        return parse_quote!(match #call {
+                                            Ctl::Done(__v) => Ok(__v),
+                                            Ctl::Unwind => Err(vx_panic_payload_()),
+                                        });
+                                    }
+                                }
+                            }
+                        }
+                    }
+                }
+                self.unsupported("catch_unwind around anything but one call of a closure declared `panics`", sp);
+            }
             // local closure call
             if p.path.segments.len() == 1 && self.u.localcall.contains(&last) {
                 let f = self.fold_expr((*c.func).clone());
@@ -1671,7 +1922,7 @@ impl<'a> Elab<'a> {
                 if let Some((sem, field)) = acq {
                     if self.t.prim_fields.contains(&field) && names.len() == 1 {
                         let sem2 = self.fold_expr_quiet(sem);
-                        pre.push(Raii { name: names[0].clone(), kind: RaiiKind::Permit { sem: sem2, field }, depth: 0 });
+                        pre.push(Raii { name: names[0].clone(), kind: RaiiKind::Permit { sem: sem2, field, wrapped: false }, depth: 0 });
                     }
                 }
                 let pat = self.fold_pat(*l.pat);
@@ -1778,7 +2029,7 @@ impl<'a> Elab<'a> {
                         if ts.path.segments.last().unwrap().ident == "Ok" && ts.elems.len() == 1 {
                             if let Some(n) = Self::pat_single_ident(&ts.elems[0]) {
                                 let sem2 = self.fold_expr_quiet(sem.clone());
-                                pre.push(Raii { name: n, kind: RaiiKind::Permit { sem: sem2, field: field.clone() }, depth: 0 });
+                                pre.push(Raii { name: n, kind: RaiiKind::Permit { sem: sem2, field: field.clone(), wrapped: false }, depth: 0 });
                             }
                         }
                     }
